@@ -160,16 +160,16 @@ end ValidTree
 /-! ### a concrete valid tree: the path `0 — 1 — 2`, cliques `{0,1}` and `{1,2}` -/
 
 /-- supernodes `{0}`, `{1,2}`; separators `{1}`, `∅`; clique 0 is the child of clique 1 -/
-def exTree : SuperNodeTree :=
+def exTreeV : SuperNodeTree :=
   { snode := #[#[0], #[1, 2]], snodePost := #[0, 1], snodeParent := #[1, noParent],
     snodeChildren := #[], post := #[], separators := #[#[1], #[]], nblk := some #[2, 2],
     nCliques := 2 }
 
-def exPattern : SPattern := { sntree := exTree, ordering := #[0, 1, 2], origIndex := 0 }
+def exPattern : SPattern := { sntree := exTreeV, ordering := #[0, 1, 2], origIndex := 0 }
 
 private theorem lt_two {i : Nat} (h : i < 2) : i = 0 ∨ i = 1 := by omega
 
-theorem exTree_valid : ValidTree exTree 3 where
+theorem exTreeV_valid : ValidTree exTreeV 3 where
   ncl_pos := by decide
   post_size := rfl
   sep_size := rfl
@@ -192,7 +192,7 @@ theorem exTree_valid : ValidTree exTree 3 where
   snode_disj := by
     intro i j v hi hj
     rcases lt_two hi with rfl | rfl <;> rcases lt_two hj with rfl | rfl <;>
-      simp [SuperNodeTree.snodeAt, SuperNodeTree.postIdx, exTree] <;> omega
+      simp [SuperNodeTree.snodeAt, SuperNodeTree.postIdx, exTreeV] <;> omega
   snode_cover := by
     intro v hv
     have : v = 0 ∨ v = 1 ∨ v = 2 := by omega
@@ -203,9 +203,9 @@ theorem exTree_valid : ValidTree exTree 3 where
   snode_consec := by
     intro i hi v
     rcases lt_two hi with rfl | rfl
-    · simp [SuperNodeTree.snodeAt, SuperNodeTree.postIdx, SuperNodeTree.snodeOffset, exTree,
+    · simp [SuperNodeTree.snodeAt, SuperNodeTree.postIdx, SuperNodeTree.snodeOffset, exTreeV,
         List.range_succ]
-    · simp [SuperNodeTree.snodeAt, SuperNodeTree.postIdx, SuperNodeTree.snodeOffset, exTree,
+    · simp [SuperNodeTree.snodeAt, SuperNodeTree.postIdx, SuperNodeTree.snodeOffset, exTreeV,
         List.range_succ]
       omega
   root_parent := rfl
@@ -218,14 +218,14 @@ theorem exTree_valid : ValidTree exTree 3 where
     subst this
     refine ⟨1, by decide, ⟨by decide, rfl⟩, fun v => ?_⟩
     simp [SuperNodeTree.sepAt, SuperNodeTree.cliqueAt, SuperNodeTree.snodeAt,
-      SuperNodeTree.postIdx, exTree]
+      SuperNodeTree.postIdx, exTreeV]
     omega
   nblk := by
     refine ⟨#[2, 2], rfl, rfl, fun i hi => ?_⟩
     rcases lt_two hi with rfl | rfl <;> rfl
 
 theorem exPattern_valid : ValidPattern exPattern where
-  tree := exTree_valid
+  tree := exTreeV_valid
   ord_lt := by
     intro v hv
     have : v = 0 ∨ v = 1 ∨ v = 2 := by
